@@ -2,11 +2,12 @@
 From Coq Require Import ExtrOcamlBasic.
 From Coq Require Extraction.
 From Coq Require Import NArith ZArith List.
-From Muscle Require Import Gen.Consts Gw.GwBase Gw.FrameModel Gw.ZlibModel Gw.TmplModel Gw.WsModel Gw.TextModel Gw.RawModel Gw.SlipModel.
+From Muscle Require Import Gen.Consts Gw.GwBase Gw.FrameModel Gw.ZlibModel Gw.TmplModel Gw.WsModel Gw.TextModel Gw.RawModel Gw.SlipModel Gw.MiniModel.
 Extraction "gw_model.ml"
   blen d_do_output d_do_input d_feed fs_init fs_queue fr_init
   t_do_output t_do_input ts_init ts_queue tr_init t_feed
   raw_do_output slip_do_output rs_init rs_queue r_do_input rr_init
   sl_do_input sr_init sl_feed f_scratch
   z_do_output z_do_input tm_do_output tm_do_input cache0
-  ws_do_output wr_do_input ws_init ws_queue wr_init d_flat.
+  ws_do_output wr_do_input ws_init ws_queue wr_init d_flat
+  mg_do_output mg_in ms_init ms_queue mr_init.
